@@ -488,6 +488,13 @@ def _projection(check, repo, mod, fp) -> None:
     # single-state arm: measured × unit-modulus phase
     arm = next((n for n in ast.walk(fp) if isinstance(n, ast.If) and "num_probes == 1" in unparse(n.test)), None)
     if arm is None:
+        unit_phase = [c for c in calls_in(fp) if (call_name(c) or "").endswith("exp") and any(isinstance(x, ast.Call) and (call_name(x) or "").endswith("angle") for x in ast.walk(c))]
+        if not unit_phase:
+            # no dedicated coherent path and no exp(i·angle(F)) anywhere: every probe count goes through a rescaling of F itself
+            check.violated("C16-R4", "fourier_projection[single state]: result = measured × exp(i·angle(F)) — modulus equals the measured amplitude for every F incl. 0",
+                           "there is no single-state path and no unit-modulus phase factor: the projection rescales F by measured/|F| (with |F| = 0 mapped to ∞), so wherever the model "
+                           "spectrum vanishes the result is 0 instead of the measured amplitude — not exact and not idempotent for band-limited exit waves", mod.line(fp))
+            return
         raise AnalysisError("fourier_projection: single-state arm not found")
     st = [s for s in arm.body if isinstance(s, ast.Assign) and dotted(s.targets[0]) == "fourier_modified_overlap"]
     if len(st) != 1:
@@ -570,6 +577,29 @@ def _ramps(check, repo: Repo) -> None:
         check.decide(sg == -1, "C16-R5", f"{site}: translation ramps use the common sign exp(−2πi k·s)", f"sign {sg}", where,
                      fail_detail=f"this ramp has sign {sg} while the others use {sorted(vals - {sg})}: the same shift vector moves the array in "
                                  f"opposite directions depending on the code path")
+    # the ramp stays COMPLEX at every call site: a ramp cast to a real dtype is cos(2π k·s) — the average of the translations by +s and −s
+    n_sites = 0
+    for mname_, m_ in repo.modules.items():
+        if not mname_.startswith("quantem.diffractive_imaging"):
+            continue
+        for c in ast.walk(m_.tree):
+            if not (isinstance(c, ast.Call) and (call_name(c) or "").split(".")[-1] == "fourier_translation_operator"):
+                continue
+            n_sites += 1
+            dk = kwarg(c, "dtype") or (c.args[3] if len(c.args) > 3 else None)
+            ok_ = dk is None or is_const(dk, None) or ("complex" in unparse(dk) and not isinstance(dk, ast.IfExp))
+            why_ = "no dtype (complex ramp as computed)" if dk is None else unparse(dk)[:60]
+            if not ok_ and isinstance(dk, ast.IfExp):
+                # `<array>.dtype if is_complex(<array>) else None/complex`
+                t_ = unparse(dk.test)
+                pos_, neg_ = (dk.body, dk.orelse) if "is_complex" in t_ and not t_.startswith("not ") else (dk.orelse, dk.body)
+                ok_ = "is_complex" in t_ and (is_const(neg_, None) or "complex" in unparse(neg_))
+            encl_ = next((f.name for f in ast.walk(m_.tree) if isinstance(f, ast.FunctionDef) and f.lineno <= c.lineno <= (f.end_lineno or f.lineno)
+                          and not any(isinstance(d_, ast.Name) and d_.id == "overload" for d_ in f.decorator_list)), "?")
+            check.decide(ok_, "C16-R5", f"{encl_}: the translation ramp is requested in a complex dtype (or none)", why_, m_.line(c),
+                         fail_detail=f"`{unparse(c)[:80]}` asks for dtype `{why_}`, which is real for real-valued inputs: the ramp exp(−2πi k·s) is cast to cos(2π k·s) — an integer shift of a "
+                                     f"real array is no longer a circular roll (two half-intensity copies at +s and −s)")
+    check.floor("fourier_translation_operator call sites", n_sites, 2)
     # fourier_translation_operator: frequencies are fftfreq(n, d=1) of the extent they are broadcast on
     um, fto = repo.func(f"{PU}:fourier_translation_operator")
     d = {k: [unparse(x) for x in definitions(fto, k) if isinstance(x, ast.AST)] for k in ("kr", "kc", "r", "c")}
